@@ -476,7 +476,7 @@ func (r *Resolver) resolveRecursiveTTU(ctx context.Context, req *Request, edge *
 	defer tIter.Stop()
 	iter := r.buildIterator(ctx, req, tIter, conditionEdge.GetConditions(), tuplesetRelation, subjectType, visited, func(key *openfgav1.TupleKey) string {
 		return tuple.ToObjectRelationString(key.GetUser(), computedRelation)
-	})
+	}, BuildTuplesetObjectFilter())
 
 	if !canApplyOptimization {
 		res, err := r.strategies[DefaultStrategyName].TTU(ctx, req, edge, iter, visited)
@@ -1082,7 +1082,7 @@ func (r *Resolver) ttu(ctx context.Context, req *Request, edge *authzGraph.Weigh
 	iter := r.buildIterator(ctx, req, tIter, tuplesetEdge.GetConditions(), tuplesetRelation, subjectType, visited, func(key *openfgav1.TupleKey) string {
 		// the node being visited is the computed relation on the parent object, not the parent object alone
 		return tuple.ToObjectRelationString(key.GetUser(), computedRelation)
-	})
+	}, BuildTuplesetObjectFilter())
 
 	if tuple.IsObjectRelation(req.GetTupleKey().GetUser()) {
 		res, err := r.strategies[DefaultStrategyName].TTU(ctx, req, edge, iter, visited)
@@ -1123,7 +1123,7 @@ func (r *Resolver) ttu(ctx context.Context, req *Request, edge *authzGraph.Weigh
 	})
 }
 
-func (r *Resolver) buildIterator(ctx context.Context, req *Request, iter storage.TupleIterator, conditions []string, relation string, userType string, visited *sync.Map, visitedKey func(key *openfgav1.TupleKey) string) storage.TupleKeyIterator {
+func (r *Resolver) buildIterator(ctx context.Context, req *Request, iter storage.TupleIterator, conditions []string, relation string, userType string, visited *sync.Map, visitedKey func(key *openfgav1.TupleKey) string, pre ...iterator.FilterFunc[*openfgav1.TupleKey]) storage.TupleKeyIterator {
 	// Note: Iterator caching is now handled by CachedTupleReader wrapper at the storage layer.
 	// This method only handles contextual tuples merge and condition filtering.
 
@@ -1136,7 +1136,8 @@ func (r *Resolver) buildIterator(ctx context.Context, req *Request, iter storage
 	}
 
 	// STEP 3: Build filter chain
-	iterFilters := make([]iterator.FilterFunc[*openfgav1.TupleKey], 0, 2)
+	iterFilters := make([]iterator.FilterFunc[*openfgav1.TupleKey], 0, 3)
+	iterFilters = append(iterFilters, pre...)
 	if visited != nil {
 		iterFilters = append(iterFilters, BuildUniqueTupleKeyFilter(visited, visitedKey))
 	}
